@@ -261,7 +261,11 @@ fn fmt_imm(v: i64, st: &mut Choices, o: &StyleOpts, sites: &mut usize) -> String
         }
         3 => {
             if neg && v >= -(1i64 << 31) {
-                format!("0x{:08x}", v as i32 as u32)
+                if st.chance(1, 3) {
+                    format!("0b{:032b}", v as i32 as u32)
+                } else {
+                    format!("0x{:08x}", v as i32 as u32)
+                }
             } else {
                 v.to_string()
             }
